@@ -25,6 +25,7 @@ pub const SEC_UNCOMMITTED: u128 = BASE + 10;
 pub const SEC_RAWNODE: u128 = BASE + 11;
 pub const SEC_CONFIG: u128 = BASE + 12;
 pub const SEC_STORE: u128 = BASE + 13;
+pub const SEC_NEW: u128 = BASE + 14;
 pub const MSG_MARK: u128 = BASE + 100;
 pub const PANIC_TOK: u64 = 999999;
 
@@ -255,7 +256,7 @@ pub fn enc_msgs_sorted(w: &mut W, ms: &[Message]) {
     }
 }
 
-fn dbg_field<'a>(dbg: &'a str, name: &str) -> &'a str {
+pub(crate) fn dbg_field<'a>(dbg: &'a str, name: &str) -> &'a str {
     let key = format!("{}: ", name);
     let i = dbg.find(&key).unwrap_or_else(|| panic!("Debug output lacks field {}: {}", name, dbg)) + key.len();
     let rest = &dbg[i..];
@@ -664,6 +665,7 @@ pub fn site_of(msg: &str) -> u64 {
         ("cannot find correspond read state", 2021),
         ("Not a vote message", 2022),
         ("not leader but has new msg after advance", 2108),
+        ("config.id must not be zero", 2111),
         ("hard state != prev_hs", 2110),
         ("has snapshot but also has committed entries", 2105),
         ("attempt to add with overflow", 1423),
@@ -699,12 +701,49 @@ pub fn site_of(msg: &str) -> u64 {
             }
         }
     }
-    if msg.contains("left == right") || msg.contains("left: ") {
-        if msg.contains("raft.rs") {
-            return 2011; // assert_eq!(last_index, self.raft_log.persisted) is the only assert_eq in raft.rs reachable
+    // sites told apart by the source text at the panic location
+    let window = src_window(msg, 2);
+    let here = src_window(msg, 0);
+    for (k, v) in [("self.commit_since_index < e.get_index()", 2101u64), ("record.last_entry, None", 2102), ("record.snapshot, None", 2103),
+        ("self.commit_since_index <= rd.snapshot", 2104), ("rd_record.number == rd.number", 2107), ("hard_state.commit == self.prev_hs.commit", 2109)] {
+        if msg.contains("raw_node.rs") && here.contains(k) {
+            return v;
         }
     }
+    if msg.contains("left == right") || msg.contains("left: ") {
+        if window.contains("self.term, m.term") {
+            return 2023;
+        }
+        if msg.contains("raft.rs") {
+            return 2011; // assert_eq!(last_index, self.raft_log.persisted)
+        }
+    }
+    if msg.contains("index out of bounds") && msg.contains("raft.rs") && window.contains("entries") && window.contains("[0]") {
+        return 2020;
+    }
+    if msg.contains("attempt to subtract with overflow") && window.contains("next_idx - 1") {
+        return 2026;
+    }
+    if std::env::var("VERIF_UNKNOWN_PANICS").is_ok() {
+        eprintln!("unknown panic: {} | window: {}", msg, window);
+    }
     9999
+}
+
+/// The source lines around the location a panic message (`… @ file:line`) names.
+fn src_window(msg: &str, before: usize) -> String {
+    if let Some(loc) = msg.split(" @ ").last() {
+        let mut it = loc.rsplitn(2, ':');
+        let line: usize = it.next().and_then(|x| x.parse().ok()).unwrap_or(0);
+        let file = it.next().unwrap_or("");
+        if let Ok(text) = std::fs::read_to_string(file) {
+            let lines: Vec<&str> = text.lines().collect();
+            let lo = line.saturating_sub(1 + before).min(lines.len());
+            let hi = (line + 1).min(lines.len());
+            return lines[lo..hi].join(" ");
+        }
+    }
+    String::new()
 }
 
 /// Per-node driver state the calls need besides the RawNode itself.
@@ -739,6 +778,8 @@ pub struct ReadyView {
     pub persisted_messages: Vec<Message>,
     pub must_sync: bool,
     pub read_states: Vec<(u64, Vec<u8>)>,
+    /// soft state handed out: (leader_id, role)
+    pub ss: Option<(u64, StateRole)>,
 }
 
 fn err_code(e: &raft::Error) -> u64 {
@@ -750,6 +791,57 @@ fn err_code(e: &raft::Error) -> u64 {
         raft::Error::ConfChangeError(_) => 5,
         _ => 99,
     }
+}
+
+/// One `RawNode::new` case: (case line, implementation's answer line).
+pub fn new_case(cfg: &raft::Config, store: &SimStorage, draws: &[u64], res: &Result<raft::Result<Node>, String>) -> (String, String) {
+    let mut w = W::default();
+    w.0.push_str("node");
+    w.m(SEC_NEW);
+    w.n(cfg.id);
+    w.n(cfg.election_tick as u64);
+    w.n(cfg.heartbeat_tick as u64);
+    w.n(cfg.applied);
+    w.n(cfg.max_size_per_msg);
+    w.n(cfg.max_inflight_msgs as u64);
+    w.b(cfg.check_quorum);
+    w.b(cfg.pre_vote);
+    w.n(cfg.min_election_tick as u64);
+    w.n(cfg.max_election_tick as u64);
+    w.n(match cfg.read_only_option {
+        raft::ReadOnlyOption::Safe => 0,
+        raft::ReadOnlyOption::LeaseBased => 1,
+    });
+    w.b(cfg.skip_bcast_commit);
+    w.b(cfg.batch_append);
+    w.z(cfg.priority);
+    w.n(cfg.max_uncommitted_size);
+    w.n(cfg.max_committed_size_per_ready);
+    w.n(cfg.max_apply_unpersisted_log_limit);
+    w.b(cfg.disable_proposal_forwarding);
+    w.m(SEC_STORE);
+    enc_store(&mut w, store);
+    w.list(draws);
+    let mut a = W::default();
+    a.m(SEC_RESULT);
+    match res {
+        Ok(Ok(node)) => {
+            a.n(0);
+            enc_rawnode(&mut a, node);
+        }
+        Ok(Err(e)) => {
+            a.n(1);
+            a.n(match e {
+                raft::Error::ConfigInvalid(_) => 6,
+                other => err_code(other),
+            });
+        }
+        Err(msg) => {
+            a.n(PANIC_TOK);
+            a.n(site_of(msg));
+        }
+    }
+    (w.0, a.0)
 }
 
 impl Driver {
@@ -904,6 +996,7 @@ impl Driver {
                         persisted_messages: rd.persisted_messages().to_vec(),
                         must_sync: rd.must_sync(),
                         read_states: rd.read_states().iter().map(|r| (r.index, r.request_ctx.clone())).collect(),
+                        ss: rd.ss().map(|s| (s.leader_id, s.raft_state)),
                     });
                     *last_rd = Some(rd);
                 })
